@@ -21,6 +21,8 @@ use std::time::{Duration, SystemTime};
 type Deliveries = Arc<Mutex<Vec<(usize, usize, u64)>>>; // (generation, appender position, record id)
 
 struct Reenter {
+    /// report an error after the swap (the record in flight belongs to the old configuration, and so does its error)
+    fail_after_swap: bool,
     armed: AtomicBool,
     handle: Mutex<Option<log4rs::Handle>>,
     next: Box<dyn Fn() -> Config + Send + Sync>,
@@ -51,6 +53,9 @@ impl Append for GenCap {
                 if let Some(h) = h {
                     h.set_config((r.next)());
                     r.returned.store(true, Ordering::SeqCst);
+                    if r.fail_after_swap {
+                        anyhow::bail!("verif: failure after the re-entrant swap");
+                    }
                 }
             }
         }
@@ -235,14 +240,18 @@ pub struct Reentrant {
     pub m_new: usize,
     pub position: usize,
     pub order: u16,
+    #[serde(default)]
+    pub fail_after_swap: bool,
 }
 
 pub fn check_reentrant(c: &Reentrant, obs: &mut Obs) -> CaseResult {
     let sink: Deliveries = Arc::new(Mutex::new(vec![]));
     let (s2, m_new, order) = (sink.clone(), c.m_new, c.order);
-    let re = Arc::new(Reenter { armed: AtomicBool::new(false), handle: Mutex::new(None), next: Box::new(move || make_config(1, m_new, order.rotate_left(3), &s2, None)), returned: AtomicBool::new(false) });
+    let re = Arc::new(Reenter { fail_after_swap: c.fail_after_swap, armed: AtomicBool::new(false), handle: Mutex::new(None), next: Box::new(move || make_config(1, m_new, order.rotate_left(3), &s2, None)), returned: AtomicBool::new(false) });
     let pos = c.position % c.m_old;
-    let logger = log4rs::Logger::new(make_config(0, c.m_old, c.order, &sink, Some((pos, re.clone()))));
+    let handled: Arc<Mutex<Vec<String>>> = Arc::new(Mutex::new(vec![]));
+    let h2 = handled.clone();
+    let logger = log4rs::Logger::new_with_err_handler(make_config(0, c.m_old, c.order, &sink, Some((pos, re.clone()))), Box::new(move |e: &anyhow::Error| h2.lock().unwrap().push(e.to_string())));
     *re.handle.lock().unwrap() = Some(logger.verif_handle());
     // an ordinary record first
     if let Err(p) = catch(|| with_record("t", log::Level::Info, "1", |r| logger.log(r))) {
@@ -254,6 +263,11 @@ pub fn check_reentrant(c: &Reentrant, obs: &mut Obs) -> CaseResult {
         return fail("C15:panic", format!("set_config from inside append (fan-out position {} of {}) panicked: {}", pos, c.m_old, p));
     }
     ensure!(re.returned.load(Ordering::SeqCst), "C15:reentrant-not-run", "the re-entrant appender was not reached");
+    if c.fail_after_swap {
+        // the record was dispatched under the old configuration: its error goes to that configuration's handler, once
+        let got = handled.lock().unwrap().clone();
+        ensure!(got.len() == 1 && got[0].contains("failure after the re-entrant swap"), "C15:error-handler-after-swap", "an appender failed while handling a record during which the configuration was swapped: the error handler configured with the dispatching logger saw {:?}, expected exactly that one error", got);
+    }
     if let Err(p) = catch(|| with_record("t", log::Level::Info, "3", |r| logger.log(r))) {
         return fail("C15:panic", format!("the record after a re-entrant swap (old fan-out {}, new fan-out {}) panicked: {}", c.m_old, c.m_new, p));
     }
@@ -704,7 +718,9 @@ pub fn run(run: &Run) {
             for m_new in 1..=5 {
                 for position in 0..m_old {
                     for order in [0u16, 1, 2, 7] {
-                        ok &= run.eval_one("reentrant", &Reentrant { m_old, m_new, position, order }, &check_reentrant);
+                        for fail_after_swap in [false, true] {
+                            ok &= run.eval_one("reentrant", &Reentrant { m_old, m_new, position, order, fail_after_swap }, &check_reentrant);
+                        }
                     }
                 }
             }
